@@ -32,7 +32,8 @@ ASSUMPTIONS = ['capability margins within 1e-9 dB of zero and NF ties (1e-9 dB) 
                'multiband auto-selection is exercised by dedicated cases (listed known finding)']
 REQUIRED_COUNTERS = {'selections': 200, 'permitted_set_checks': 200, 'capability_checks': 200, 'nf_optimality_checks': 150,
                      'restricted_by_roadm': 10, 'restricted_by_variety_list': 10, 'raman_rule_checks': 5,
-                     'selections_after_library_edit': 30}
+                     'selections_after_library_edit': 30, 'selection_vs_design_checks': 1000,
+                     'multiband_preselection_checks': 50, 'multiband_bands_with_different_total_power': 30}
 CASE_TIMEOUT = {'quick': 200, 'thorough': 400}
 
 _CALLS = []
@@ -51,6 +52,7 @@ def install():
                'network': network}
         _CALLS.append(rec)
         _stack.append(rec)
+        rec['out_voa_before'], rec['power_mode'] = node.out_voa, power_mode
         try:
             return orig_set(node, prev_node, next_node, power_mode, prev_voa, prev_dp, pref_ch_db, pref_total_db,
                             network, restrictions, equipment, verbose, deviation_db=deviation_db,
@@ -58,6 +60,8 @@ def install():
         finally:
             _stack.pop()
             rec['variety_after'] = node.params.type_variety
+            # designed state right after this call (the same amplifier may be designed again later)
+            rec['after'] = {'offset': getattr(node, '_delta_p', None), 'gain': node.effective_gain, 'out_voa': node.out_voa}
 
     def select_edfa(raman_allowed, gain_target, power_target, edfa_eqpt, uid, target_extended_gain, verbose=True):
         rec = {'raman_allowed': bool(raman_allowed), 'gain_target': float(gain_target),
@@ -82,8 +86,9 @@ _stack = []
 
 def plan(tier, seed):
     n = 1200 if tier == 'quick' else 16000
-    cases = [{'idx': i, 'kind': ['synth', 'synth', 'mixed', 'synth'][i % 4]} for i in range(n)]
-    cases += [{'idx': n, 'kind': 'kf-multiband-auto'}, {'idx': n + 1, 'kind': 'kf-multiband-auto'}]
+    cases = [{'idx': i, 'kind': ['synth', 'synth', 'mixed', 'synth', 'multiband'][i % 5]} for i in range(n)]
+    cases += [{'idx': n, 'kind': 'kf-multiband-auto'}, {'idx': n + 1, 'kind': 'kf-multiband-auto'},
+              {'idx': n + 2, 'kind': 'kf-multiband-crossed'}, {'idx': n + 3, 'kind': 'kf-multiband-crossed'}]
     return cases
 
 
@@ -254,17 +259,18 @@ def permitted_set(ej, tj, rec, design_band):
     return sorted(out), source
 
 
-def judge(ctx, ej, tj, rec):
+def judge(ctx, ej, tj, rec, permitted=None, source=None):
     sel = rec['select']
     span = ej['Span'][0]
     si = ej['SI'][0]
     lib = lib_entries(ej)
     ctx.count('selections')
-    band = design_band(ej, tj, rec)
-    if band is None:
-        ctx.skip('empty-design-band')
-        return
-    permitted, source = permitted_set(ej, tj, rec, band)
+    if permitted is None:
+        band = design_band(ej, tj, rec)
+        if band is None:
+            ctx.skip('empty-design-band')
+            return
+        permitted, source = permitted_set(ej, tj, rec, band)
     ctx.count('permitted_set_checks')
     if source == 'roadm':
         ctx.count('restricted_by_roadm')
@@ -284,6 +290,22 @@ def judge(ctx, ej, tj, rec):
     if chosen not in permitted:
         ctx.violation('chosen-not-permitted', f'{sel["uid"]}: chose {chosen}, not in the permitted set ({source})')
         return
+    # the power and gain the selection was asked for are the ones the designed amplifier has to deliver: reference total
+    # power + designed offset (before the reduction the selection itself reports, before an automatic output VOA)
+    st = rec.get('after')
+    if st and st['offset'] is not None and st['gain'] is not None:
+        auto_v = st['out_voa'] if (rec['power_mode'] and rec['out_voa_before'] is None and
+                                   lib[chosen].get('out_voa_auto')) else 0.0
+        exp_pt = rec['pref_total_db'] + st['offset'] - power_reduction - auto_v
+        exp_g = st['gain'] - power_reduction - auto_v
+        ctx.count('selection_vs_design_checks')
+        if abs(sel['power_target'] - exp_pt) > 1e-9 or abs(sel['gain_target'] - exp_g) > 1e-9:
+            ctx.violation('selection-targets-differ-from-design', f'{sel["uid"]}: the selection was asked for gain '
+                          f'{sel["gain_target"]:.6f} dB / total power {sel["power_target"]:.6f} dBm, the designed '
+                          f'amplifier has to deliver gain {exp_g:.6f} dB / power {exp_pt:.6f} dBm (reference total '
+                          f'{rec["pref_total_db"]:.4f} dBm + offset {st["offset"]:.4f} dB, output VOA {st["out_voa"]}, '
+                          f'reported reduction {power_reduction})')
+            return
     # Raman rule
     prev = rec['prev']
     limit = span.get('max_fiber_lineic_loss_for_raman', 0.25)
@@ -373,6 +395,221 @@ def judge(ctx, ej, tj, rec):
                     'nf_at_gain': None if nf is None else {k: round(v, 3) for k, v in list(nf.items())[:8]}})
 
 
+MB_MEMBER_BANDS = {'C': (191.25e12, 196.15e12), 'L': (186.55e12, 190.05e12)}
+
+
+def build_multiband_inputs(rng, crossed=False):
+    from gnpy.core.science_utils import estimate_nf_model
+    """Synthetic multiband groups (every per-band model belongs to exactly one group), two design bands of different
+    widths - hence different channel counts and total powers -, every multiband amplifier left to auto-design."""
+    ej = G.eqpt_json('eqpt_config_multiband.json')
+    for e in ej['Edfa']:
+        e['allowed_for_design'] = False
+    sp = ej['Span'][0]
+    sp['padding'] = G.pick(rng, [10, 8, 11])
+    sp['delta_power_range_db'] = G.pick(rng, [[-2, 3, 0.5], [0, 0, 0], [-1, 2, 0.5]])
+    groups = []
+    # 'ranked' libraries: the same gain range for every model of a band, the quieter the group the lower its maximum
+    # power - the noise ranking of the groups is then the same on every band and the designs complete (with free
+    # libraries the per-band choices often come from different groups and the design stops: listed finding)
+    ranked = rng.random() < 0.65
+    shared = {b: (G.pick(rng, [8, 10, 12]), G.pick(rng, [12, 14, 16])) for b in MB_MEMBER_BANDS}
+    p0 = {b: G.pick(rng, [15, 16, 17, 18]) for b in MB_MEMBER_BANDS}
+    for i in range(rng.randint(2, 5)):
+        names = []
+        for b, (lo, hi) in MB_MEMBER_BANDS.items():
+            m = GE.synth_variable_gain(rng, f'syn_mb{i}_{b}', f_min=lo, f_max=hi, allowed=False)
+            m['out_voa_auto'] = False
+            # gains / powers in the range the generated spans need, so that capability separates the groups
+            m['gain_min'] = G.pick(rng, [8, 10, 12, 15])
+            m['gain_flatmax'] = m['gain_min'] + G.pick(rng, [8, 10, 14, 16])
+            m['p_max'] = G.pick(rng, [16, 17, 18, 19, 20, 21, 23])
+            if ranked:
+                m['gain_min'], m['gain_flatmax'] = shared[b][0], shared[b][0] + shared[b][1]
+                m['p_max'] = p0[b] + 1.5 * i + G.pick(rng, [0, 0.5])
+                m['nf_min'] = round(4.8 + 0.45 * i, 2)
+                for spread in (2.0, 3.0, 4.0, 1.5, 5.0, 6.0, 1.0, 7.0):
+                    m['nf_max'] = round(m['nf_min'] + spread, 2)
+                    try:
+                        estimate_nf_model(m['type_variety'], m['gain_min'], m['gain_flatmax'], m['nf_min'], m['nf_max'])
+                        break
+                    except Exception:  # noqa
+                        continue
+            for k in range(400):
+                try:
+                    estimate_nf_model(m['type_variety'], m['gain_min'], m['gain_flatmax'], m['nf_min'], m['nf_max'])
+                    break
+                except Exception:  # noqa
+                    if k > 300:
+                        m['gain_flatmax'] = m['gain_min'] + G.pick(rng, [6, 8, 10])
+                    m['nf_min'] = G.rnd(rng, 4.6, 7.5, 2)
+                    m['nf_max'] = round(m['nf_min'] + G.rnd(rng, 0.8, 6, 2), 2)
+            ej['Edfa'].append(m)
+            names.append(m['type_variety'])
+        if crossed and i >= 2:
+            break
+        g = {'type_variety': f'syn_group_{i}', 'type_def': 'multi_band', 'amplifiers': names,
+             'allowed_for_design': rng.random() < 0.85}
+        ej['Edfa'].append(g)
+        groups.append(g)
+    if not any(g['allowed_for_design'] for g in groups):
+        groups[0]['allowed_for_design'] = True
+    if crossed:
+        # dedicated case of the listed finding: two groups, both able to deliver everything, group 0 quieter on C and
+        # group 1 quieter on L
+        lib = {e['type_variety']: e for e in ej['Edfa']}
+        for g in groups:
+            g['allowed_for_design'] = True
+        for i, b, nf in ((0, 'C', 5.0), (0, 'L', 7.0), (1, 'C', 7.0), (1, 'L', 5.0)):
+            m = lib[f'syn_mb{i}_{b}']
+            m.update(gain_min=10, gain_flatmax=26, p_max=25, nf_min=nf, nf_max=nf + 3.0)
+    bands = [{'f_min': 191.3e12, 'f_max': G.pick(rng, [196.0e12, 196.0e12, 194.0e12]), 'spacing': 50e9},
+             {'f_min': G.pick(rng, [187.0e12, 188.5e12, 189.0e12]), 'f_max': 190.0e12, 'spacing': 50e9}]
+
+    def rp(r, s):
+        return {'design_bands': deepcopy(bands)}
+    tj, _ = G.gen_topology(rng, n_sites=rng.randint(2, 3), max_spans=2, user_amps=False, fused=False, roadm_params=rp,
+                           max_km=120)
+    els, cx = tj['elements'], tj['connections']
+    for c in list(cx):
+        if c['from_node'].startswith('roadm') and c['to_node'].startswith('fiber'):
+            uid = f'booster {c["from_node"]} to {c["to_node"]}'
+            els.append({'uid': uid, 'type': 'Multiband_amplifier', 'type_variety': '', 'amplifiers': [],
+                        'metadata': G._loc(0, 0)})
+            cx.remove(c)
+            cx.append({'from_node': c['from_node'], 'to_node': uid})
+            cx.append({'from_node': uid, 'to_node': c['to_node']})
+        elif c['from_node'].startswith('fiber') and c['to_node'].startswith('roadm'):
+            # (a preamp left to auto-design would be inserted as a single-band amplifier: C08's listed finding)
+            uid = f'preamp {c["to_node"]} from {c["from_node"]}'
+            els.append({'uid': uid, 'type': 'Multiband_amplifier', 'type_variety': '', 'amplifiers': [],
+                        'metadata': G._loc(0, 0)})
+            cx.remove(c)
+            cx.append({'from_node': c['from_node'], 'to_node': uid})
+            cx.append({'from_node': uid, 'to_node': c['to_node']})
+    return ej, tj, groups, bands
+
+
+def run_multiband(case, ctx):
+    """Auto-selection of multiband amplifiers: the per-band candidates offered to the selection are the members of the
+    permitted groups that can deliver, on EVERY band, that band's own gain and total power; each band's choice is then
+    judged like a single-band one; the designed amplifier is one permitted group."""
+    rng = ctx.rng
+    ej, tj, groups, bands = build_multiband_inputs(rng, crossed=case['kind'] == 'kf-multiband-crossed')
+    equipment = G.make_equipment(ej)
+    network = G.make_network(tj, equipment)
+    SimParams.set_params({})
+    _CALLS.clear()
+    _stack.clear()
+    ctx.dump.update({'equipment_edfa': [e for e in ej['Edfa'] if e['type_variety'].startswith('syn')],
+                     'equipment_span': ej['Span'], 'topology': tj, 'design_bands': bands})
+    lib = lib_entries(ej)
+    ext = ej['Span'][0].get('target_extended_gain', 2.5)
+    err = None
+    try:
+        G.design(equipment, network)
+    except ConfigurationError as e:
+        err = e
+    parents = [n for n in network.nodes() if isinstance(n, Multiband_amplifier)]
+    owner = {id(a): (p, b) for p in parents for b, a in p.amplifiers.items()}
+    # consecutive per-band calls of one multiband amplifier form one selection
+    runs, cur = [], None
+    for rec in _CALLS:
+        o = owner.get(id(rec['node']))
+        if o is None or rec['variety_before'] != '':
+            cur = None
+            continue
+        if cur is None or cur['parent'] is not o[0] or o[1] in cur['bands']:
+            cur = {'parent': o[0], 'bands': {}}
+            runs.append(cur)
+        cur['bands'][o[1]] = rec
+    permitted_groups = [g for g in groups if g['allowed_for_design']]
+    for run in runs:
+        ctx.count('multiband_selections')
+        recs = run['bands']
+        if any(r['select'] is None or r['select']['error'] for r in recs.values()):
+            ctx.skip('multiband-selection-stopped')
+            continue
+        if len(recs) != len(run['parent'].amplifiers):
+            ctx.skip('multiband-selection-incomplete')
+            continue
+
+        def member(g, band_name):
+            lo, hi = next((b['f_min'], b['f_max']) for b in _bands_of(run['parent'], band_name, bands))
+            return next((n for n in g['amplifiers'] if lib[n]['f_min'] <= lo and lib[n]['f_max'] >= hi), None)
+
+        def capable(name, sel):
+            e = lib[name]
+            g, pt = sel['gain_target'], sel['power_target']
+            mp = min(pt - g + e['gain_flatmax'] + ext, e['p_max']) - pt
+            mg = g + 3 - e['gain_min']
+            return mp, mg
+        margins = {g['type_variety']: {b: capable(member(g, b), r['select']) if member(g, b) else None
+                                       for b, r in recs.items()} for g in permitted_groups}
+        if any(m is not None and (abs(m[0]) < 1e-9 or abs(m[1]) < 1e-9) for d in margins.values() for m in d.values()):
+            ctx.skip('capability-margin-at-zero')
+            continue
+        full = [g for g in permitted_groups
+                if all(m is not None and m[0] > 0 and m[1] > 0 for m in margins[g['type_variety']].values())]
+        if not full:
+            ctx.skip('no-group-capable-on-every-band')
+            ctx.cls('multiband:no-fully-capable-group')
+            continue
+        ctx.count('multiband_preselection_checks')
+        totals = {b: round(r['pref_total_db'], 3) for b, r in recs.items()}
+        if len(set(totals.values())) > 1:
+            ctx.count('multiband_bands_with_different_total_power')
+        for b, r in recs.items():
+            exp = sorted(member(g, b) for g in full)
+            if r['select']['candidates'] != exp:
+                ctx.violation('multiband-preselection', f'{run["parent"].uid} band {b}: candidates offered to the selection '
+                              f'{r["select"]["candidates"]} differ from the members of the groups that can deliver every '
+                              f"band's own gain and power {exp} (band totals {totals} dBm)",
+                              {'margins': {k: {bb: None if m is None else [round(x, 4) for x in m] for bb, m in v.items()}
+                                           for k, v in margins.items()}})
+                return
+            judge(ctx, ej, tj, r, permitted=exp, source='multiband')
+            if ctx.violations:
+                return
+        if len(full) >= 2:
+            ctx.nontrivial(('multiband', P.digest(ctx.dump['equipment_edfa']), run['parent'].uid))
+    if err is not None:
+        mech = None
+        if 'amps do not belong to the same amp type' in str(err):
+            # witness predicate of the listed finding: the per-band models named by the error are members of different
+            # groups, each of them allowed for design (the preselection was right, the per-band choices were made
+            # independently of each other)
+            import re
+            named = re.findall(r"'(syn_mb\d+_[CL])'", str(err).split('amps do not belong')[0])
+            owners = {n: [g['type_variety'] for g in permitted_groups if n in g['amplifiers']] for n in named}
+            if len(named) >= 2 and all(len(v) == 1 for v in owners.values()) and \
+                    len({v[0] for v in owners.values()}) > 1:
+                mech = 'multiband-per-band-choices-from-different-groups'
+        ctx.violation('multiband-selection', f'auto-selection of a multiband amplifier failed: {str(err)[:300]}',
+                      mechanism=mech)
+        return
+    for p in parents:
+        e = lib.get(p.type_variety)
+        if e is None or e.get('type_def') != 'multi_band' or not e.get('allowed_for_design'):
+            ctx.violation('multiband-selection', f'{p.uid}: designed as {p.type_variety!r}, not a group allowed for design')
+        elif sorted(a.params.type_variety for a in p.amplifiers.values()) != sorted(e['amplifiers']):
+            ctx.violation('multiband-selection', f'{p.uid}: per-band models '
+                          f'{[a.params.type_variety for a in p.amplifiers.values()]} are not the members of {p.type_variety}')
+    ctx.cls('kind:multiband')
+    if not ctx.samples:
+        ctx.sample({'kind': 'multiband', 'groups': [g['type_variety'] for g in groups], 'design_bands': bands,
+                    'multiband_amplifiers': len(parents), 'selections': len(runs)})
+    if not ctx.violations:
+        ctx.dump.clear()
+
+
+def _bands_of(parent, band_name, bands):
+    """design band (of the generated ones) that the per-band amplifier `band_name` of `parent` serves"""
+    amp = parent.amplifiers[band_name]
+    lo, hi = amp.params.f_min, amp.params.f_max
+    return [b for b in bands if lo <= b['f_min'] and hi >= b['f_max']]
+
+
 def run_known(case, ctx):
     """Multiband auto-selection on the shipped multiband library (listed finding)."""
     rng = ctx.rng
@@ -417,8 +654,12 @@ def run_known(case, ctx):
 
 def run_case(case, ctx):
     install()
+    if case['kind'] == 'kf-multiband-crossed':
+        return run_multiband(case, ctx)
     if case['kind'].startswith('kf-'):
         return run_known(case, ctx)
+    if case['kind'] == 'multiband':
+        return run_multiband(case, ctx)
     rng = ctx.rng
     ej, tj = build_inputs(rng, case['kind'])
     equipment = G.make_equipment(ej)
